@@ -19,9 +19,9 @@ Rec == ndJsonDeserialize(IOEnv.TRACE)
 
 VARIABLES l, run, cfg, viol, hits, nruns, lastFresh, curEdge, maxRxEnd,
           wrT, dl, closedAt, accPre, accInt, finAcc, advEdge, lastEdge, lastAckEm, synWs, maxEdge, zeroRecent, maxSent,
-          peerMss, maxAckRcvd, twEntry, twLastRx, rstSeen, scripted
+          peerMss, maxAckRcvd, twEntry, twLastRx, rstSeen, scripted, viaListen
 conn == <<lastFresh, curEdge, maxRxEnd, wrT, dl, closedAt, accPre, accInt, finAcc, advEdge, lastEdge, lastAckEm, synWs, maxEdge, zeroRecent, maxSent,
-          peerMss, maxAckRcvd, twEntry, twLastRx, rstSeen, scripted>>
+          peerMss, maxAckRcvd, twEntry, twLastRx, rstSeen, scripted, viaListen>>
 vars == <<l, run, cfg, viol, hits, nruns, conn>>
 
 EPS == {0, 1}
@@ -54,7 +54,7 @@ InitConn ==
   /\ lastFresh = Fn(0) /\ curEdge = Fn(0) /\ maxRxEnd = Fn(0)
   /\ wrT = Fn(0) /\ dl = Fn(0) /\ closedAt = Fn(-1) /\ accPre = Fn(0) /\ accInt = Fn(<<>>) /\ finAcc = Fn(-1)
   /\ advEdge = Fn(0) /\ lastEdge = Fn(0) /\ lastAckEm = Fn(0) /\ synWs = Fn(-1) /\ maxEdge = Fn(0) /\ zeroRecent = Fn(0) /\ maxSent = Fn(0)
-  /\ peerMss = Fn(-1) /\ maxAckRcvd = Fn(0) /\ twEntry = Fn(-1) /\ twLastRx = Fn(-1) /\ rstSeen = FALSE /\ scripted = Fn(FALSE)
+  /\ peerMss = Fn(-1) /\ maxAckRcvd = Fn(0) /\ twEntry = Fn(-1) /\ twLastRx = Fn(-1) /\ rstSeen = FALSE /\ scripted = Fn(FALSE) /\ viaListen = Fn(FALSE)
 Init == l = 1 /\ run = -1 /\ cfg = <<>> /\ viol = <<>> /\ hits = [r \in Rules |-> 0] /\ nruns = 0 /\ InitConn
 
 Shift(e) == IF synWs[0] >= 0 /\ synWs[1] >= 0 THEN Min(synWs[e], 14) ELSE 0
@@ -144,7 +144,8 @@ EdgeOK(e, b, a, kind, g, call, finInOrder, ackOfFin, rstOK, now) ==
      \/ b = "SYN-SENT" /\ a = "CLOSED" /\ g.rst /\ g.ha /\ g.ack = 1
      \/ b = "SYN-RECEIVED" /\ a = "ESTABLISHED" /\ g.ha /\ g.ack = 1 /\ ~g.syn /\ ~g.rst
      \/ b = "SYN-RECEIVED" /\ a = "CLOSE-WAIT" /\ g.ha /\ g.ack = 1 /\ finInOrder /\ ~g.rst
-     \/ b = "SYN-RECEIVED" /\ a \in {"LISTEN", "CLOSED"} /\ g.rst /\ rstOK
+     \/ b = "SYN-RECEIVED" /\ a = "CLOSED" /\ g.rst /\ rstOK
+     \/ b = "SYN-RECEIVED" /\ a = "LISTEN" /\ g.rst /\ rstOK /\ viaListen[e]
      \/ b = "ESTABLISHED" /\ a = "CLOSE-WAIT" /\ finInOrder
      \/ b = "FIN-WAIT-1" /\ a = "FIN-WAIT-2" /\ ackOfFin
      \/ b = "FIN-WAIT-1" /\ a = "CLOSING" /\ finInOrder
@@ -164,7 +165,7 @@ Step ==
             /\ wrT' = Fn(0) /\ dl' = Fn(0) /\ closedAt' = Fn(-1) /\ accPre' = Fn(0) /\ accInt' = Fn(<<>>) /\ finAcc' = Fn(-1)
             /\ advEdge' = Fn(0) /\ lastEdge' = Fn(0) /\ lastAckEm' = Fn(0) /\ synWs' = Fn(-1) /\ maxEdge' = Fn(0) /\ zeroRecent' = Fn(0) /\ maxSent' = Fn(0)
             /\ peerMss' = Fn(-1) /\ maxAckRcvd' = Fn(0) /\ twEntry' = Fn(-1) /\ twLastRx' = Fn(-1) /\ rstSeen' = FALSE
-            /\ scripted' = [e \in EPS |-> "scripted" \in DOMAIN r.cfg[e + 1]]
+            /\ scripted' = [e \in EPS |-> "scripted" \in DOMAIN r.cfg[e + 1]] /\ viaListen' = Fn(FALSE)
        [] r.ev = "api" ->
             LET e == r.ep
                 hasPost == "post" \in DOMAIN r
@@ -176,12 +177,12 @@ Step ==
                    /\ wrT' = [wrT EXCEPT ![e] = @ + (IF r.ret > 0 THEN r.ret ELSE 0)]
                    /\ viol' = AddAll(viol, tv \o pv)
                    /\ hits' = [hits EXCEPT !["L1"] = @ + 1]
-                   /\ UNCHANGED <<dl, closedAt, accPre, accInt, finAcc, advEdge, lastEdge, lastAckEm, synWs, maxEdge, zeroRecent, maxSent, peerMss, maxAckRcvd, twEntry, twLastRx, rstSeen, scripted, lastFresh, curEdge, maxRxEnd>>
+                   /\ UNCHANGED <<dl, closedAt, accPre, accInt, finAcc, advEdge, lastEdge, lastAckEm, synWs, maxEdge, zeroRecent, maxSent, peerMss, maxAckRcvd, twEntry, twLastRx, rstSeen, scripted, viaListen, lastFresh, curEdge, maxRxEnd>>
               [] r.call = "close" ->
                    /\ closedAt' = [closedAt EXCEPT ![e] = IF @ = -1 THEN r.at ELSE @]
                    /\ viol' = AddAll(viol, tv \o pv)
                    /\ hits' = [hits EXCEPT !["T1"] = @ + 1]
-                   /\ UNCHANGED <<wrT, dl, accPre, accInt, finAcc, advEdge, lastEdge, lastAckEm, synWs, maxEdge, zeroRecent, maxSent, peerMss, maxAckRcvd, twEntry, twLastRx, rstSeen, scripted, lastFresh, curEdge, maxRxEnd>>
+                   /\ UNCHANGED <<wrT, dl, accPre, accInt, finAcc, advEdge, lastEdge, lastAckEm, synWs, maxEdge, zeroRecent, maxSent, peerMss, maxAckRcvd, twEntry, twLastRx, rstSeen, scripted, viaListen, lastFresh, curEdge, maxRxEnd>>
               [] r.call = "recv" ->
                    LET p == 1 - e
                        n == IF r.ret > 0 THEN r.ret ELSE 0
@@ -194,12 +195,12 @@ Step ==
                       /\ viol' = AddAll(viol, p1 \o p3 \o r2 \o p2 \o tv \o pv)
                       /\ hits' = [hits EXCEPT !["P1"] = @ + (IF n > 0 THEN 1 ELSE 0), !["R2"] = @ + (IF n > 0 THEN 1 ELSE 0),
                                               !["P3"] = @ + (IF n > 0 THEN 1 ELSE 0), !["P2"] = @ + (IF r.err = "finished" THEN 1 ELSE 0)]
-                      /\ UNCHANGED <<wrT, closedAt, accPre, accInt, finAcc, advEdge, lastEdge, lastAckEm, synWs, maxEdge, zeroRecent, maxSent, peerMss, maxAckRcvd, twEntry, twLastRx, rstSeen, scripted, lastFresh, curEdge, maxRxEnd>>
+                      /\ UNCHANGED <<wrT, closedAt, accPre, accInt, finAcc, advEdge, lastEdge, lastAckEm, synWs, maxEdge, zeroRecent, maxSent, peerMss, maxAckRcvd, twEntry, twLastRx, rstSeen, scripted, viaListen, lastFresh, curEdge, maxRxEnd>>
               [] OTHER ->    \* listen, connect, abort
                    /\ viol' = AddAll(viol, tv \o pv)
                    /\ hits' = [hits EXCEPT !["T1"] = @ + 1]
                    /\ rstSeen' = (rstSeen \/ r.call = "abort")
-                   /\ UNCHANGED <<wrT, dl, closedAt, accPre, accInt, finAcc, advEdge, lastEdge, lastAckEm, synWs, maxEdge, zeroRecent, maxSent, peerMss, maxAckRcvd, twEntry, twLastRx, scripted, lastFresh, curEdge, maxRxEnd>>
+                   /\ UNCHANGED <<wrT, dl, closedAt, accPre, accInt, finAcc, advEdge, lastEdge, lastAckEm, synWs, maxEdge, zeroRecent, maxSent, peerMss, maxAckRcvd, twEntry, twLastRx, scripted, viaListen, lastFresh, curEdge, maxRxEnd>>
        [] r.ev = "rx" ->
             LET e == r.ep
                 p == 1 - e
@@ -289,6 +290,8 @@ Step ==
                /\ lastFresh' = [lastFresh EXCEPT ![e] = IF good /\ (r.before # r.post.st \/ certain) THEN r.now ELSE @]
                /\ curEdge' = [curEdge EXCEPT ![e] = ce2]
                /\ maxRxEnd' = [maxRxEnd EXCEPT ![e] = IF good THEN Max(@, g.seq + SegLen(g)) ELSE @]
+               \* (SYN-RECEIVED entered from LISTEN: a listener, which a reset returns to LISTEN; entered from SYN-SENT: not one)
+               /\ viaListen' = [viaListen EXCEPT ![e] = IF r.post.st = "SYN-RECEIVED" /\ r.before # "SYN-RECEIVED" THEN r.before = "LISTEN" ELSE @]
                /\ UNCHANGED <<wrT, dl, closedAt, scripted>>
        [] r.ev \in {"egress", "probe"} ->
             LET e == r.ep
@@ -313,7 +316,7 @@ Step ==
                /\ viol' = AddAll(viol, ov \o tv \o t2 \o q1 \o q2 \o PostViol(e, r.post, r.now))
                /\ hits' = [hits EXCEPT !["S1"] = @ + Len(r.out), !["L1"] = @ + 1, !["Q1"] = @ + (IF r.ev = "probe" THEN 1 ELSE 0),
                                        !["Q2"] = @ + (IF r.out = <<>> THEN 1 ELSE 0), !["T2"] = @ + (IF before = "TIME-WAIT" THEN 1 ELSE 0)]
-               /\ UNCHANGED <<wrT, dl, closedAt, accPre, accInt, finAcc, maxEdge, zeroRecent, peerMss, maxAckRcvd, twEntry, twLastRx, scripted, lastFresh, curEdge, maxRxEnd>>
+               /\ UNCHANGED <<wrT, dl, closedAt, accPre, accInt, finAcc, maxEdge, zeroRecent, peerMss, maxAckRcvd, twEntry, twLastRx, scripted, viaListen, lastFresh, curEdge, maxRxEnd>>
        [] r.ev = "end" ->
             LET done == \A e \in EPS : r.post[e + 1].st = "CLOSED" /\ r.read[e + 1] = r.written[2 - e] /\ r.finished[e + 1]
                 l2 == IF r.how = "quiescent" /\ ~rstSeen /\ ~done
